@@ -3,7 +3,7 @@ import WD.Proofs.Pipeline.Step
 set_option linter.unusedSimpArgs false
 namespace WD.Pipe
 
-variable {fs : FS} {k : Kern} {lib : Lib} {cov : Ent → Prop}
+variable {fs : FS} {k : Kern} {lib : Lib} {cov : Ent → Prop} {z : Option Nat}
 
 /- ---------------- `inotify_add_watch` on a directory that is not watched yet ---------------- -/
 
@@ -24,16 +24,24 @@ theorem wdOfIno_withWatch (k : Kern) (ino i : Nat) :
   · have hb : (ino == i) = false := by simp [h]
     cases List.find? (fun w => w.2 == i) k.watches <;> simp [h, hb]
 
-theorem InvOn.addWatch (inv : InvOn cov fs k lib) {e : Ent} (he : e ∈ fs.ents) (hd : inTreeDir e = true)
+theorem InvOn.addWatch (inv : InvOn cov z fs k lib) {e : Ent} (he : e ∈ fs.ents) (hd : inTreeDir e = true)
     (hun : k.wdOfIno e.ino = none) :
-    InvOn (fun x => cov x ∨ x = e) fs (k.withWatch e.ino) (lib.withWatch e.path k.nextWd) := by
+    InvOn (fun x => cov x ∨ x = e) z fs (k.withWatch e.ino) (lib.withWatch e.path k.nextWd) := by
   have hnot : ∀ w ∈ k.watches, w.2 ≠ e.ino := wdOfIno_none.mp hun
   have hwdlt : ∀ wd p, lookupW lib.pathForWd wd = some p → wd ≠ k.nextWd := by
     intro wd p h hh
-    obtain ⟨ino, hw⟩ := inv.pfwDom wd p h
-    have := inv.klt _ hw; simp at this; omega
+    rcases inv.pfwDom wd p h with ⟨ino, hw⟩ | hz
+    · have := inv.klt _ hw; simp at this; omega
+    · have := inv.zlt wd hz; omega
   refine
     { wf := inv.wf, isRec := inv.isRec, kwd := ?_, kino := ?_, klt := ?_, good := ?_, cover := ?_, pfwDom := ?_,
+      zlt := fun w hw => by have := inv.zlt w hw; simp [Kern.withWatch]; omega,
+      zdead := by
+        intro w hw hz
+        simp only [Kern.withWatch, List.mem_append, List.mem_singleton] at hw
+        rcases hw with hw | hw
+        · exact inv.zdead w hw hz
+        · subst hw; have := inv.zlt _ hz; simp at this,
       wfpInv := ?_, wfpNodup := nodup_setP inv.wfpNodup _ _, pfwNodup := nodup_setW inv.pfwNodup _ _, cookies := inv.cookies }
   · simp only [Kern.withWatch, List.map_append, List.map_cons, List.map_nil]
     refine List.nodup_append.mpr ⟨inv.kwd, by simp, ?_⟩
@@ -73,10 +81,11 @@ theorem InvOn.addWatch (inv : InvOn cov fs k lib) {e : Ent} (he : e ∈ fs.ents)
   · intro wd p h
     simp only [Lib.withWatch, lookupW_setW] at h
     by_cases hwd : wd = k.nextWd
-    · subst hwd; exact ⟨e.ino, by simp [Kern.withWatch]⟩
+    · subst hwd; exact Or.inl ⟨e.ino, by simp [Kern.withWatch]⟩
     · simp only [hwd, if_false] at h
-      obtain ⟨ino, hw⟩ := inv.pfwDom wd p h
-      exact ⟨ino, by simp [Kern.withWatch, hw]⟩
+      rcases inv.pfwDom wd p h with ⟨ino, hw⟩ | hz
+      · exact Or.inl ⟨ino, by simp [Kern.withWatch, hw]⟩
+      · exact Or.inr hz
   · intro p wd h
     simp only [Lib.withWatch, lookupP_setP] at h
     simp only [Lib.withWatch, lookupW_setW]
@@ -104,9 +113,9 @@ theorem libRecord_ignored (fs : FS) (k : Kern) (lib : Lib) (wd : Nat) (p : P) (d
     libRecord fs k lib ⟨wd, .ignored, d, c, none⟩ = some (k, lib.forget p wd, [⟨wd, .ignored, d, c, none, p⟩]) := by
   simp [libRecord, h1, h2, Lib.forget]
 
-theorem InvOn.dropWatch (inv : InvOn cov fs k lib) {e : Ent} (he : e ∈ fs.ents) {wd : Nat}
+theorem InvOn.dropWatch (inv : InvOn cov none fs k lib) {e : Ent} (he : e ∈ fs.ents) {wd : Nat}
     (hw : (wd, e.ino) ∈ k.watches) (hwf : (fs.del e.path).WF) :
-    InvOn cov (fs.del e.path) (k.dropWatch e.ino) (lib.forget e.path wd) := by
+    InvOn cov none (fs.del e.path) (k.dropWatch e.ino) (lib.forget e.path wd) := by
   have hmem : ∀ w, w ∈ (k.dropWatch e.ino).watches ↔ w ∈ k.watches ∧ w.2 ≠ e.ino := by
     intro w; simp [Kern.dropWatch]
   have hwd_ne : ∀ w ∈ k.watches, w.2 ≠ e.ino → w.1 ≠ wd := by
@@ -119,6 +128,7 @@ theorem InvOn.dropWatch (inv : InvOn cov fs k lib) {e : Ent} (he : e ∈ fs.ents
   simp only at hp0
   refine
     { wf := hwf, isRec := inv.isRec, kwd := ?_, kino := ?_, klt := ?_, good := ?_, cover := ?_, pfwDom := ?_,
+      zlt := by simp, zdead := by simp,
       wfpInv := ?_, wfpNodup := nodup_keys_filter inv.wfpNodup _, pfwNodup := nodup_keys_filter inv.pfwNodup _,
       cookies := inv.cookies }
   · exact List.Nodup.sublist (List.Sublist.map _ List.filter_sublist) inv.kwd
@@ -142,8 +152,8 @@ theorem InvOn.dropWatch (inv : InvOn cov fs k lib) {e : Ent} (he : e ∈ fs.ents
     by_cases hwd : wd' = wd
     · simp [hwd] at h
     · simp only [hwd, if_false] at h
-      obtain ⟨ino, hw'⟩ := inv.pfwDom wd' p h
-      refine ⟨ino, (hmem _).mpr ⟨hw', ?_⟩⟩
+      obtain ⟨ino, hw'⟩ := (inv.pfwDom wd' p h).resolve_right (by simp)
+      refine Or.inl ⟨ino, (hmem _).mpr ⟨hw', ?_⟩⟩
       intro hi; subst hi
       exact hwd (by simpa using congrArg Prod.fst (inj_of_nodup_map inv.kino hw' hw rfl))
   · intro p wd' h
@@ -155,5 +165,126 @@ theorem InvOn.dropWatch (inv : InvOn cov fs k lib) {e : Ent} (he : e ∈ fs.ents
       have hwd : wd' ≠ wd := by
         intro hh; subst hh; rw [hp0] at h1; exact hp (Option.some.inj h1).symm
       simp [Lib.forget, lookupW_filter_ne, hwd, h1]
+
+end WD.Pipe
+
+namespace WD.Pipe
+variable {fs : FS} {k : Kern} {lib : Lib} {cov : Ent → Prop} {z : Option Nat}
+
+theorem wdOfIno_dropWatch (k : Kern) (i j : Nat) :
+    (k.dropWatch i).wdOfIno j = if j = i then none else k.wdOfIno j := by
+  unfold Kern.wdOfIno Kern.dropWatch
+  simp only [List.find?_filter]
+  by_cases h : j = i
+  · subst h
+    simp only [if_true, Option.map_eq_none_iff]
+    rw [List.find?_eq_none]; intro x _; simp
+  · simp only [h, if_false]
+    congr 1; congr 1; funext x
+    by_cases hx : x.2 = j
+    · simp [hx, h]
+    · simp [hx]
+
+/-- the kernel has dropped the watch of a removed directory, the reader has not seen the IGNORED yet:
+    the descriptor lingers in the maps -/
+theorem InvOn.dropWatch_zombie (inv : InvOn cov none fs k lib) {e : Ent} (he : e ∈ fs.ents) {wd : Nat}
+    (hw : (wd, e.ino) ∈ k.watches) (hwf : (fs.del e.path).WF) :
+    InvOn cov (some wd) (fs.del e.path) (k.dropWatch e.ino) lib := by
+  have hmem : ∀ w, w ∈ (k.dropWatch e.ino).watches ↔ w ∈ k.watches ∧ w.2 ≠ e.ino := by
+    intro w; simp [Kern.dropWatch]
+  refine
+    { wf := hwf, isRec := inv.isRec, kwd := ?_, kino := ?_, klt := ?_, good := ?_, cover := ?_, pfwDom := ?_,
+      zlt := ?_, zdead := ?_, wfpInv := inv.wfpInv, wfpNodup := inv.wfpNodup, pfwNodup := inv.pfwNodup,
+      cookies := inv.cookies }
+  · exact List.Nodup.sublist (List.Sublist.map _ List.filter_sublist) inv.kwd
+  · exact List.Nodup.sublist (List.Sublist.map _ List.filter_sublist) inv.kino
+  · intro w hw'; exact inv.klt w ((hmem w).mp hw').1
+  · intro w hw'
+    obtain ⟨hw1, hw2⟩ := (hmem w).mp hw'
+    obtain ⟨e', he', h1, h2, h3, h4⟩ := inv.good w hw1
+    have hne : e'.path ≠ e.path := by
+      intro hp; have := inv.wf.path_inj he' he hp; subst this; exact hw2 h1.symm
+    exact ⟨e', FS.mem_del.mpr ⟨he', hne⟩, h1, h2, h3, h4⟩
+  · intro e' he' hd' hc'
+    obtain ⟨he1, he2⟩ := FS.mem_del.mp he'
+    obtain ⟨wd', hw'⟩ := inv.cover e' he1 hd' hc'
+    refine ⟨wd', (hmem _).mpr ⟨hw', ?_⟩⟩
+    intro hi; exact he2 (congrArg Ent.path (inv.wf.ino_inj he1 he hi))
+  · intro wd' p h
+    obtain ⟨ino, hw'⟩ := (inv.pfwDom wd' p h).resolve_right (by simp)
+    by_cases hi : ino = e.ino
+    · subst hi; right
+      have := inj_of_nodup_map inv.kino hw' hw rfl
+      have h2 : wd' = wd := by simpa using congrArg Prod.fst this
+      rw [h2]
+    · exact Or.inl ⟨ino, (hmem _).mpr ⟨hw', hi⟩⟩
+  · intro w hz; cases hz; have := inv.klt _ hw; simp only [Kern.dropWatch]; simpa using this
+  · intro w hw' hz
+    obtain ⟨hw1, hw2⟩ := (hmem w).mp hw'
+    simp only [Option.some.injEq] at hz
+    have : w = (wd, e.ino) := inj_of_nodup_map inv.kwd hw1 hw (by simpa using hz.symm)
+    rw [this] at hw2; exact hw2 rfl
+
+def Lib.bury (lib : Lib) (p : P) (wd : Nat) : Lib :=
+  { lib with wdForPath := if lookupP lib.wdForPath p == some wd then lib.wdForPath.filter (fun x => x.1 != p) else lib.wdForPath,
+             pathForWd := lib.pathForWd.filter (fun x => x.1 != wd) }
+
+theorem libRecord_ignored' (fs : FS) (k : Kern) (lib : Lib) (wd : Nat) (p : P) (d : Bool) (c : Nat)
+    (h1 : lookupW lib.pathForWd wd = some p) :
+    libRecord fs k lib ⟨wd, .ignored, d, c, none⟩ = some (k, lib.bury p wd, [⟨wd, .ignored, d, c, none, p⟩]) := by
+  simp [libRecord, h1, Lib.bury]
+
+/-- the reader sees the IGNORED of a lingering descriptor -/
+theorem InvOn.bury {zw : Nat} (inv : InvOn cov (some zw) fs k lib) {pz : P} (hz : lookupW lib.pathForWd zw = some pz) :
+    InvOn cov none fs k (lib.bury pz zw) := by
+  have hlive : ∀ w ∈ k.watches, w.1 ≠ zw := by
+    intro w hw hh; exact inv.zdead w hw (by rw [hh])
+  refine
+    { wf := inv.wf, isRec := inv.isRec, kwd := inv.kwd, kino := inv.kino, klt := inv.klt, good := ?_, cover := inv.cover,
+      pfwDom := ?_, zlt := by simp, zdead := by simp, wfpInv := ?_, wfpNodup := ?_,
+      pfwNodup := nodup_keys_filter inv.pfwNodup _, cookies := inv.cookies }
+  · intro w hw
+    obtain ⟨e', he', h1, h2, h3, h4⟩ := inv.good w hw
+    refine ⟨e', he', h1, h2, ?_, ?_⟩
+    · simp [Lib.bury, lookupW_filter_ne, hlive w hw, h3]
+    · simp only [Lib.bury]
+      split
+      · rename_i hq
+        have hq' : lookupP lib.wdForPath pz = some zw := by simpa using hq
+        have : e'.path ≠ pz := by
+          intro hh; rw [hh, hq'] at h4; exact hlive w hw (Option.some.inj h4).symm
+        simp [lookupP_filter_ne, this, h4]
+      · exact h4
+  · intro wd p h
+    simp only [Lib.bury, lookupW_filter_ne] at h
+    by_cases hwd : wd = zw
+    · simp [hwd] at h
+    · simp only [hwd, if_false] at h
+      rcases inv.pfwDom wd p h with h1 | h1
+      · exact Or.inl h1
+      · exact absurd (Option.some.inj h1).symm hwd
+  · intro p wd h
+    have hcases : lookupP lib.wdForPath p = some wd ∧ ¬ (p = pz ∧ lookupP lib.wdForPath pz = some zw) := by
+      simp only [Lib.bury] at h
+      split at h
+      · rename_i hq
+        have hq' : lookupP lib.wdForPath pz = some zw := by simpa using hq
+        rw [lookupP_filter_ne] at h
+        by_cases hp : p = pz
+        · simp [hp] at h
+        · simp only [hp, if_false] at h; exact ⟨h, fun hh => hp hh.1⟩
+      · rename_i hq
+        exact ⟨h, fun hh => hq (by simp [hh.2])⟩
+    have h1 := inv.wfpInv p wd hcases.1
+    have hwd : wd ≠ zw := by
+      intro hh; subst hh
+      rw [hz] at h1
+      have hp : p = pz := (Option.some.inj h1).symm
+      exact hcases.2 ⟨hp, hp ▸ hcases.1⟩
+    simp [Lib.bury, lookupW_filter_ne, hwd, h1]
+  · simp only [Lib.bury]
+    split
+    · exact nodup_keys_filter inv.wfpNodup _
+    · exact inv.wfpNodup
 
 end WD.Pipe
